@@ -55,8 +55,9 @@ Tol(chk) ==
     [] chk = "range"    -> 4       \* excess of |angle| over pi resp. pi/2, relative
     [] OTHER            -> 0
 \* Euler round trip: pitch = asin(t2) loses 1/cos(pitch) = (2 (1 - |sin pitch|))^(-1/2) digits:
-\* g = decade of 1 - |sin pitch| (0: >= 0.1, 1: >= 1e-2, 2: >= 1e-3, 3: >= 4e-4 = twice the gimbal eps)
-ErtTol(g) == CASE g = 0 -> 32 [] g = 1 -> 64 [] g = 2 -> 128 [] g = 3 -> 256 [] OTHER -> 0
+\* g = decade of 1 - |sin pitch| (0: >= 0.1, 1: >= 1e-2, 2: >= 1e-3, 3: >= 4e-4 = twice the default gimbal eps,
+\* 4: >= 2e-5 = twice a caller-chosen eps of 1e-5, loss factor up to 160)
+ErtTol(g) == CASE g = 0 -> 32 [] g = 1 -> 64 [] g = 2 -> 128 [] g = 3 -> 256 [] g = 4 -> 1024 [] OTHER -> 0
 
 \* ------------------------------------------------------------------ decoding
 RowsOf(lay) == IF lay = "44" THEN 4 ELSE 3
@@ -146,7 +147,7 @@ NumClause(e) ==
          ELSE IF e.rot > Tol("e2") + e.allow THEN "euler2SO3_RzRyRx"
          ELSE IF e.un > Tol("unit") THEN "euler2SO3_unit" ELSE "ok"
     [] e.op = "nert" ->
-         IF e.g \notin 0..3 THEN "ok"                                 \* inside / too close to the gimbal band: not judged
+         IF e.g \notin 0..4 THEN "ok"                                 \* inside / too close to the gimbal band: not judged
          ELSE IF ~e.finite THEN "nonfinite_euler"
          ELSE IF e.rng > Tol("range") THEN "principal_range"
          ELSE IF e.rot > ErtTol(e.g) THEN "euler_roundtrip_g" \o ToString(e.g)
